@@ -20,7 +20,9 @@ use yvcommon::util;
 
 fn agrees(obs: &Value, out: &Value) -> bool {
     match out["k"].as_str().unwrap() {
-        "ok" => obs["k"] == "ok" && obs["f"] == out["f"] && obs["x"] == out["x"] && obs["y"] == out["y"],
+        "ok" => {
+            obs["k"] == "ok" && obs["f"] == out["f"] && obs["x"] == out["x"] && obs["y"] == out["y"] && obs["ifs"] == out["ifs"]
+        }
         kind => {
             obs["k"] == "err"
                 && obs["status"].as_i64().unwrap_or(0) != 0
@@ -41,6 +43,7 @@ fn lookup_class(p: &str, st: &Value) -> &'static str {
     };
     match p {
         "x" | "y" => of(if st[p]["set"].as_bool().unwrap() { st[p]["v"].as_str() } else { None }),
+        "IFS" => of(if st["ifs"]["set"].as_bool().unwrap() { st["ifs"]["v"].as_str() } else { None }),
         "1" | "2" => {
             let i: usize = p.parse().unwrap();
             of(st["pos"].as_array().unwrap().get(i - 1).and_then(|v| v.as_str()))
@@ -106,6 +109,9 @@ fn outcome_tags(st: &Value, outs: &[Value], tags: &mut BTreeMap<String, usize>) 
             }
             if o["x"] != st["x"] || o["y"] != st["y"] {
                 add("out/assigned".into());
+            }
+            if o["ifs"] != st["ifs"] {
+                add("out/assigned-IFS".into());
             }
         }
         k => add(format!("out/err-{k}")),
